@@ -129,10 +129,23 @@ pub struct UdpOp {
     pub size: u32,
 }
 
+/// Who moves the packets.
+#[derive(Clone, Copy, Debug, PartialEq, Eq, Serialize, Deserialize, Default)]
+pub enum Via {
+    /// the harness-owned wire and executor of this module
+    #[default]
+    Wire,
+    /// turmoil-net's own `fixture::ClientServer` / `fixture::lo` (paused tokio runtime, built-in
+    /// scheduler); the fault plan is installed as a `Rule` closure
+    Fixture,
+}
+
 #[derive(Clone, Debug, PartialEq, Eq, Serialize, Deserialize)]
 pub struct Scenario {
     /// generated with the triggers of the known defects avoided
     pub guarded: bool,
+    #[serde(default)]
+    pub via: Via,
     pub cfg: Cfg,
     pub topo: Topo,
     /// server binds the wildcard address
@@ -192,7 +205,7 @@ pub fn plan_is_bounded(cfg: &Cfg, plan: &Plan) -> bool {
     if dm == 0 {
         return true;
     }
-    t * d + 2 * dm + 2 <= t * (m + 1)
+    t * d + 2 * dm + 4 <= t * (m + 1)
 }
 
 /// Largest single delay that keeps a plan with `drops` drops inside the premise (0 = none).
@@ -201,7 +214,7 @@ pub fn max_bounded_delay(cfg: &Cfg, drops: u32) -> u32 {
     if drops + 1 > m {
         return 0;
     }
-    let room = (t * (m + 1)).saturating_sub(t * drops).saturating_sub(2);
+    let room = (t * (m + 1)).saturating_sub(t * drops).saturating_sub(4);
     room / 2
 }
 
@@ -249,13 +262,31 @@ pub struct Obs {
 }
 
 impl Obs {
-    fn fail6(&mut self, class: &str, msg: String) {
+    pub(super) fn new(keep: bool, mode: Mode) -> Obs {
+        Obs {
+            log: Log::new(keep),
+            mode,
+            accepted: [0; 2],
+            read: [0; 2],
+            eof: [false; 2],
+            closing: [false; 2],
+            connected: [false; 2],
+            errors: Vec::new(),
+            progress: 0,
+            v6: None,
+            v16: None,
+            probes: Counters::default(),
+            sendbuf_full_seen: false,
+            harness_error: None,
+        }
+    }
+    pub(super) fn fail6(&mut self, class: &str, msg: String) {
         self.log.ev(format!("!! C06 {class}: {msg}"));
         if self.v6.is_none() {
             self.v6 = Some(Violation::new(class, msg));
         }
     }
-    fn fail16(&mut self, class: &str, msg: String) {
+    pub(super) fn fail16(&mut self, class: &str, msg: String) {
         self.log.ev(format!("!! C16 {class}: {msg}"));
         if self.v16.is_none() {
             self.v16 = Some(Violation::new(class, msg));
@@ -268,13 +299,14 @@ pub struct Shared {
     pub sides: [Side; 2],
     pub first_byte: [Gate; 2],
     pub spawner: Spawner,
-    pub hosts: [HostId; 2],
-    /// address under which `netstat` finds the host of each side
-    pub stat_ip: [IpAddr; 2],
+    /// host of each side (own executor only)
+    pub hosts: Option<[HostId; 2]>,
+    /// address under which `netstat` finds the host of each side (None: host has no address)
+    pub stat_ip: Option<[IpAddr; 2]>,
     pub cfg: Cfg,
 }
 
-const SIDE_NAME: [&str; 2] = ["client", "server"];
+pub(super) const SIDE_NAME: [&str; 2] = ["client", "server"];
 
 impl Shared {
     fn ev(&self, s: String) {
@@ -283,7 +315,7 @@ impl Shared {
 
     /// (recv_q, send_q) of the connection socket of `side`, from the public netstat snapshot.
     fn sock_q(&self, side: usize) -> Option<(usize, usize)> {
-        let ns = netstat(self.stat_ip[side]);
+        let ns = netstat(self.stat_ip?[side]);
         for e in ns.entries {
             if e.proto != Proto::Tcp || e.state == Some(NetstatState::Listen) {
                 continue;
@@ -297,7 +329,7 @@ impl Shared {
         None
     }
 
-    fn op_err(&self, side: usize, op: &'static str, e: io::Error) {
+    pub(super) fn op_err(&self, side: usize, op: &'static str, e: io::Error) {
         let mut o = self.obs.borrow_mut();
         let kind = e.kind();
         o.log.ev(format!("{} {op} -> Err({kind:?})", SIDE_NAME[side]));
@@ -313,7 +345,7 @@ impl Shared {
         }
     }
 
-    fn on_connected(&self, side: usize, s: &TcpStream) {
+    pub(super) fn on_connected(&self, side: usize, s: &TcpStream) {
         let mut o = self.obs.borrow_mut();
         o.connected[side] = true;
         o.progress += 1;
@@ -466,8 +498,9 @@ async fn server_main(sh: Rc<Shared>, addr: SocketAddr) {
 fn start_halves(sh: &Rc<Shared>, side: usize, s: TcpStream) {
     let (r, w) = s.into_split();
     let names: [(&str, &str); 2] = [("c-rd", "c-wr"), ("s-rd", "s-wr")];
-    sh.spawner.spawn(sh.hosts[side], names[side].0, reader(sh.clone(), side, r));
-    sh.spawner.spawn(sh.hosts[side], names[side].1, writer(sh.clone(), side, w));
+    let hosts = sh.hosts.expect("own executor");
+    sh.spawner.spawn(hosts[side], names[side].0, reader(sh.clone(), side, r));
+    sh.spawner.spawn(hosts[side], names[side].1, writer(sh.clone(), side, w));
 }
 
 async fn read_some(r: &mut OwnedReadHalf, buf: &mut [u8]) -> io::Result<usize> {
@@ -482,7 +515,7 @@ async fn read_some(r: &mut OwnedReadHalf, buf: &mut [u8]) -> io::Result<usize> {
     .await
 }
 
-async fn reader(sh: Rc<Shared>, side: usize, mut r: OwnedReadHalf) {
+pub(super) async fn reader(sh: Rc<Shared>, side: usize, mut r: OwnedReadHalf) {
     let prog = sh.sides[side].clone();
     let mut i = 0usize;
     loop {
@@ -520,7 +553,7 @@ async fn reader(sh: Rc<Shared>, side: usize, mut r: OwnedReadHalf) {
     drop(r);
 }
 
-async fn writer(sh: Rc<Shared>, side: usize, mut w: OwnedWriteHalf) {
+pub(super) async fn writer(sh: Rc<Shared>, side: usize, mut w: OwnedWriteHalf) {
     let prog = sh.sides[side].clone();
     if prog.wait_first {
         sh.first_byte[side].wait().await;
@@ -600,7 +633,7 @@ async fn writer(sh: Rc<Shared>, side: usize, mut w: OwnedWriteHalf) {
     }
 }
 
-async fn udp_main(sh: Rc<Shared>, ops: Vec<UdpOp>, peer4: Ipv4Addr, peer6: Ipv6Addr) {
+pub(super) async fn udp_main(sh: Rc<Shared>, ops: Vec<UdpOp>, peer4: Ipv4Addr, peer6: Ipv6Addr) {
     for (i, op) in ops.iter().enumerate() {
         let bind: SocketAddr = if op.v6 { (Ipv6Addr::UNSPECIFIED, 0).into() } else { (Ipv4Addr::UNSPECIFIED, 0).into() };
         let sock = match UdpSocket::bind(bind).await {
@@ -682,12 +715,15 @@ struct Flight {
     due: u32,
 }
 
-const C4: Ipv4Addr = Ipv4Addr::new(10, 0, 0, 1);
-const S4: Ipv4Addr = Ipv4Addr::new(10, 0, 0, 2);
-const C6: Ipv6Addr = Ipv6Addr::new(0xfd00, 0, 0, 0, 0, 0, 0, 1);
-const S6: Ipv6Addr = Ipv6Addr::new(0xfd00, 0, 0, 0, 0, 0, 0, 2);
+pub(super) const C4: Ipv4Addr = Ipv4Addr::new(10, 0, 0, 1);
+pub(super) const S4: Ipv4Addr = Ipv4Addr::new(10, 0, 0, 2);
+pub(super) const C6: Ipv6Addr = Ipv6Addr::new(0xfd00, 0, 0, 0, 0, 0, 0, 1);
+pub(super) const S6: Ipv6Addr = Ipv6Addr::new(0xfd00, 0, 0, 0, 0, 0, 0, 2);
 
 pub fn run_conn(sc: &Scenario, keep: bool) -> Outcome {
+    if sc.via == Via::Fixture {
+        return super::fixture::run_fixture(sc, keep);
+    }
     let mode = mode_of(sc);
     let mut net = Net::with_config(sc.cfg.kernel());
     let ch = net.add_host(vec![IpAddr::V4(C4), IpAddr::V6(C6)]);
@@ -695,30 +731,15 @@ pub fn run_conn(sc: &Scenario, keep: bool) -> Outcome {
     let guard = net.enter();
 
     let stat_ip = [IpAddr::V4(C4), if single { IpAddr::V4(C4) } else { IpAddr::V4(S4) }];
-    let obs = Obs {
-        log: Log::new(keep),
-        mode,
-        accepted: [0; 2],
-        read: [0; 2],
-        eof: [false; 2],
-        closing: [false; 2],
-        connected: [false; 2],
-        errors: Vec::new(),
-        progress: 0,
-        v6: None,
-        v16: None,
-        probes: Counters::default(),
-        sendbuf_full_seen: false,
-        harness_error: None,
-    };
+    let obs = Obs::new(keep, mode);
     let mut ex = Executor::new();
     let sh = Rc::new(Shared {
         obs: RefCell::new(obs),
         sides: sc.sides.clone(),
         first_byte: [Gate::default(), Gate::default()],
         spawner: ex.spawner.clone(),
-        hosts: [ch, shost],
-        stat_ip,
+        hosts: Some([ch, shost]),
+        stat_ip: Some(stat_ip),
         cfg: sc.cfg.clone(),
     });
 
@@ -748,9 +769,8 @@ pub fn run_conn(sc: &Scenario, keep: bool) -> Outcome {
     let mut st = Drive {
         wire: Wire::new(vec![IpAddr::V4(C4), IpAddr::V6(C6)], sc.cfg.mtu, sc.cfg.lo_mtu),
         flights: Vec::new(),
-        used: vec![false; sc.plan.faults.len()],
+        fates: Fates::new(&sc.plan),
         faults: Counters::default(),
-        fired: Vec::new(),
         packets: Vec::new(),
         rounds: 0,
         data_segments: 0,
@@ -802,7 +822,7 @@ pub fn run_conn(sc: &Scenario, keep: bool) -> Outcome {
         probes,
         rounds: st.rounds,
         packets: st.packets,
-        fired: st.fired,
+        fired: st.fates.fired,
         data_segments: st.data_segments,
         zero_window_seen,
         sendbuf_full_seen: o.sendbuf_full_seen,
@@ -814,9 +834,8 @@ pub fn run_conn(sc: &Scenario, keep: bool) -> Outcome {
 struct Drive {
     wire: Wire,
     flights: Vec<Flight>,
-    used: Vec<bool>,
+    fates: Fates,
     faults: Counters,
-    fired: Vec<Fired>,
     packets: Vec<PktRec>,
     rounds: u32,
     data_segments: u32,
@@ -824,21 +843,30 @@ struct Drive {
     single: bool,
 }
 
-enum Fate {
+pub(super) enum Fate {
     Now,
     Hold(u32),
     Drop,
     Hole,
 }
 
-impl Drive {
-    fn fate(&mut self, sc: &Scenario, info: &PktInfo, nth: u32) -> Fate {
-        match sc.plan.hole {
+/// Which planned faults have fired so far.
+pub(super) struct Fates {
+    used: Vec<bool>,
+    pub fired: Vec<Fired>,
+}
+
+impl Fates {
+    pub(super) fn new(plan: &Plan) -> Fates {
+        Fates { used: vec![false; plan.faults.len()], fired: Vec::new() }
+    }
+    pub(super) fn decide(&mut self, plan: &Plan, info: &PktInfo, nth: u32) -> Fate {
+        match plan.hole {
             Hole::All { from } if info.idx >= from => return Fate::Hole,
             Hole::Dir { from, dir } if info.idx >= from && dir == info.dir => return Fate::Hole,
             _ => {}
         }
-        for (i, f) in sc.plan.faults.iter().enumerate() {
+        for (i, f) in plan.faults.iter().enumerate() {
             if self.used[i] {
                 continue;
             }
@@ -858,88 +886,96 @@ impl Drive {
         }
         Fate::Now
     }
+}
 
+impl Drive {
     /// C16 monitors on a segment leaving a host.
-    fn monitor_egress(&mut self, sc: &Scenario, p: &Packet, info: &PktInfo, o: &mut Obs) {
-        let mtu = self.wire.mtu_of(p.src);
-        match &p.payload {
-            Transport::Udp(d) => {
-                let limit = mtu.saturating_sub(ip_hdr(p.src)).saturating_sub(UDP_HDR);
-                if d.payload.len() as u32 > limit {
-                    o.fail16("UdpWireOversize", format!("UDP datagram with {} payload bytes on the wire, mtu {mtu} allows {limit}", d.payload.len()));
-                }
-            }
-            Transport::Tcp(s) => {
-                let mss = mtu.saturating_sub(ip_hdr(p.src)).saturating_sub(TCP_HDR);
-                if s.payload.len() as u32 > mss {
-                    o.fail16(
-                        "MssExceeded",
-                        format!("segment #{} from {} carries {} payload bytes, MSS for mtu {mtu} is {mss}", info.idx, p.src, s.payload.len()),
-                    );
-                }
-                if s.payload.len() as u32 == mss {
-                    o.probes.inc("segment_of_exactly_mss");
-                }
-                if info.kind == Kind::Data {
-                    let d = &self.wire.dirs[info.dir as usize];
-                    if let (Some(_), Some(wnd)) = (d.isn, d.wnd_delivered) {
-                        let end = info.rel_seq.wrapping_add(info.len);
-                        if end < 0x4000_0000 && end > d.acked_delivered {
-                            let in_flight = end - d.acked_delivered;
-                            if in_flight > wnd as u32 {
-                                o.fail16(
-                                    "WindowExceeded",
-                                    format!(
-                                        "{} put bytes up to offset {end} on the wire (segment #{}) while the highest acknowledgement delivered to it is {} and the window last delivered to it is {wnd}: {in_flight} bytes in flight",
-                                        SIDE_NAME[info.dir as usize], info.idx, d.acked_delivered
-                                    ),
-                                );
-                            }
-                            if in_flight == wnd as u32 {
-                                o.probes.inc("sender_filled_peer_window_exactly");
-                            }
-                        }
+    fn monitor_egress(&mut self, p: &Packet, info: &PktInfo, o: &mut Obs) {
+        check_sizes(&self.wire, p, info, o);
+        if info.kind == Kind::Data {
+            let d = &self.wire.dirs[info.dir as usize];
+            if let (Some(_), Some(wnd)) = (d.isn, d.wnd_delivered) {
+                let end = info.rel_seq.wrapping_add(info.len);
+                if end < 0x4000_0000 && end > d.acked_delivered {
+                    let in_flight = end - d.acked_delivered;
+                    if in_flight > wnd as u32 {
+                        o.fail16(
+                            "WindowExceeded",
+                            format!(
+                                "{} put bytes up to offset {end} on the wire (segment #{}) while the highest acknowledgement delivered to it is {} and the window last delivered to it is {wnd}: {in_flight} bytes in flight",
+                                SIDE_NAME[info.dir as usize], info.idx, d.acked_delivered
+                            ),
+                        );
+                    }
+                    if in_flight == wnd as u32 {
+                        o.probes.inc("sender_filled_peer_window_exactly");
                     }
                 }
             }
         }
-        let _ = sc;
     }
 
     /// C16: queue depths of every TCP socket of every host against the configured caps.
     fn monitor_netstat(&mut self, sc: &Scenario, o: &mut Obs, when: &str) {
         let ips: &[IpAddr] = if self.single { &[IpAddr::V4(C4)] } else { &[IpAddr::V4(C4), IpAddr::V4(S4)] };
-        for ip in ips {
-            let ns = netstat(*ip);
-            for e in ns.entries {
-                if e.proto != Proto::Tcp || e.state == Some(NetstatState::Listen) {
-                    continue;
-                }
-                if let Some(s) = e.state {
-                    o.probes.inc(match s {
-                        NetstatState::SynSent => "state_SynSent",
-                        NetstatState::SynReceived => "state_SynReceived",
-                        NetstatState::Established => "state_Established",
-                        NetstatState::FinWait1 => "state_FinWait1",
-                        NetstatState::FinWait2 => "state_FinWait2",
-                        NetstatState::CloseWait => "state_CloseWait",
-                        NetstatState::LastAck => "state_LastAck",
-                        NetstatState::Closing => "state_Closing",
-                        _ => "state_other",
-                    });
-                }
-                if e.recv_q > sc.cfg.recv_cap as usize {
-                    o.fail16("RecvCapExceeded", format!("{when}: socket {} -> {:?} has recv_q={} > recv_buf_cap={}", e.local, e.peer, e.recv_q, sc.cfg.recv_cap));
-                }
-                if e.send_q > sc.cfg.send_cap as usize {
-                    o.fail16("SendCapExceeded", format!("{when}: socket {} -> {:?} has send_q={} > send_buf_cap={}", e.local, e.peer, e.send_q, sc.cfg.send_cap));
-                }
-                if e.recv_q == sc.cfg.recv_cap as usize && e.recv_q > 0 {
-                    o.probes.inc("recv_queue_at_cap");
-                }
-                if e.send_q == sc.cfg.send_cap as usize && e.send_q > 0 {
-                    o.sendbuf_full_seen = true;
-                }
+        check_queues(&sc.cfg, ips, o, when);
+    }
+}
+
+/// C16: payload sizes of a packet leaving a host against the MTU of the interface it leaves from.
+pub(super) fn check_sizes(wire: &Wire, p: &Packet, info: &PktInfo, o: &mut Obs) {
+    let mtu = wire.mtu_of(p.src);
+    match &p.payload {
+        Transport::Udp(d) => {
+            let limit = mtu.saturating_sub(ip_hdr(p.src)).saturating_sub(UDP_HDR);
+            if d.payload.len() as u32 > limit {
+                o.fail16("UdpWireOversize", format!("UDP datagram with {} payload bytes on the wire, mtu {mtu} allows {limit}", d.payload.len()));
+            }
+        }
+        Transport::Tcp(s) => {
+            let mss = mtu.saturating_sub(ip_hdr(p.src)).saturating_sub(TCP_HDR);
+            if s.payload.len() as u32 > mss {
+                o.fail16("MssExceeded", format!("segment #{} from {} carries {} payload bytes, MSS for mtu {mtu} is {mss}", info.idx, p.src, s.payload.len()));
+            }
+            if s.payload.len() as u32 == mss {
+                o.probes.inc("segment_of_exactly_mss");
+            }
+        }
+    }
+}
+
+/// C16: queue depths of the TCP sockets of the hosts behind `ips` against the configured caps.
+pub(super) fn check_queues(cfg: &Cfg, ips: &[IpAddr], o: &mut Obs, when: &str) {
+    for ip in ips {
+        let ns = netstat(*ip);
+        for e in ns.entries {
+            if e.proto != Proto::Tcp || e.state == Some(NetstatState::Listen) {
+                continue;
+            }
+            if let Some(s) = e.state {
+                o.probes.inc(match s {
+                    NetstatState::SynSent => "state_SynSent",
+                    NetstatState::SynReceived => "state_SynReceived",
+                    NetstatState::Established => "state_Established",
+                    NetstatState::FinWait1 => "state_FinWait1",
+                    NetstatState::FinWait2 => "state_FinWait2",
+                    NetstatState::CloseWait => "state_CloseWait",
+                    NetstatState::LastAck => "state_LastAck",
+                    NetstatState::Closing => "state_Closing",
+                    _ => "state_other",
+                });
+            }
+            if e.recv_q > cfg.recv_cap as usize {
+                o.fail16("RecvCapExceeded", format!("{when}: socket {} -> {:?} has recv_q={} > recv_buf_cap={}", e.local, e.peer, e.recv_q, cfg.recv_cap));
+            }
+            if e.send_q > cfg.send_cap as usize {
+                o.fail16("SendCapExceeded", format!("{when}: socket {} -> {:?} has send_q={} > send_buf_cap={}", e.local, e.peer, e.send_q, cfg.send_cap));
+            }
+            if e.recv_q == cfg.recv_cap as usize && e.recv_q > 0 {
+                o.probes.inc("recv_queue_at_cap");
+            }
+            if e.send_q == cfg.send_cap as usize && e.send_q > 0 {
+                o.sendbuf_full_seen = true;
             }
         }
     }
@@ -985,8 +1021,8 @@ fn drive(sc: &Scenario, mode: Mode, guard: &EnterGuard, ex: &mut Executor, sh: &
                 st.data_segments += 1;
             }
             let mut o = sh.obs.borrow_mut();
-            st.monitor_egress(sc, &pkt, &info, &mut o);
-            let fate = st.fate(sc, &info, nth);
+            st.monitor_egress(&pkt, &info, &mut o);
+            let fate = st.fates.decide(&sc.plan, &info, nth);
             let fate_s = match fate {
                 Fate::Now => "deliver".to_string(),
                 Fate::Hold(k) => format!("hold {k}"),
